@@ -145,7 +145,7 @@ pub fn exec(verb: &str, items: &[Sexp], o: &mut Oracle) -> Option<String> {
             for k in [1usize, 2, 3, 5, 9, 10, 11, 12, 64] {
                 let mut cb = Chunked { data: &input, pos: 0, k };
                 let alt = enc::decode_varint(&mut cb).map(|v| (v, cb.remaining())).map_err(|_| ());
-                if alt != main { o.fail("C10", format!("decode_varint through {}-byte chunks gives {:?}, contiguous {:?}", k, alt, main)); }
+                if alt != main { o.fail("C05,C10", format!("decode_varint through {}-byte chunks gives {:?}, contiguous {:?}", k, alt, main)); }
             }
             // Bytes (the buffer type generated code is handed)
             let mut bb = Bytes::from(input.clone());
